@@ -333,10 +333,14 @@ func cmdRace(args []string) {
 		}
 		g := dag.NewGraph("r")
 		g.TickerDuration = 50 * time.Microsecond
+		serialFirst := p.Serial && (p.Seed/7)%2 == 0
+		if serialFirst {
+			g.SetSerial()
+		}
 		if p.Limit > 0 {
 			g.SetMaxParallel(p.Limit)
 		}
-		if p.Serial {
+		if p.Serial && !serialFirst {
 			g.SetSerial()
 		}
 		var sink bytes.Buffer // NOT safe for concurrent use: only Run's buffer mutex keeps the flushes apart
@@ -388,6 +392,7 @@ func cmdExhaust(args []string) {
 	seed := fs.Int64("seed", 1, "seed")
 	limit := fs.Int("limit", 0, "SetMaxParallel (0: default)")
 	serial := fs.Bool("serial", false, "serial mode")
+	readd := fs.Bool("readd", false, "after the edges, define every task again with a fresh Task value of the same ID")
 	out := fs.String("out", "", "trace file")
 	plansOut := fs.String("plans", "", "also write the plans (for replay)")
 	runBase := fs.Int("runbase", 0, "first run number")
@@ -457,6 +462,11 @@ func cmdExhaust(args []string) {
 				}
 				for _, e := range seq {
 					p.History = append(p.History, dh.Op{Op: "dep", T: ids[e.t], D: ids[e.d]})
+				}
+				if *readd {
+					for _, id := range ids {
+						p.History = append(p.History, dh.Op{Op: "add", T: id, New: true})
+					}
 				}
 				if pw != nil {
 					b, _ := json.Marshal(&p)
